@@ -334,9 +334,6 @@ func exec(s *Scenario, guard bool) (ms []core.Mismatch, onlys []string) {
 	if s.What == "offset" {
 		ccw := s.F["ccw"] != (s.Emb.Det() < 0)
 		for _, sign := range []string{"+", "-"} {
-			if s.Only != "" && s.Only != sign {
-				continue
-			}
 			d := hw
 			if sign == "-" {
 				d = -hw
@@ -349,12 +346,26 @@ func exec(s *Scenario, guard bool) (ms []core.Mismatch, onlys []string) {
 			if ccw {
 				o = "ccw"
 			}
-			run("Offset("+sign+")", func() *canvas.Path {
-				fastMu.RLock()
-				defer fastMu.RUnlock()
-				return build(s).Offset(d, 0.01*scale)
-			},
-				func(f int) int { return s.H.OffTable[grow][f] }, "offset"+sign+o, sign)
+			if s.Only == "" || s.Only == sign {
+				run("Offset("+sign+")", func() *canvas.Path {
+					fastMu.RLock()
+					defer fastMu.RUnlock()
+					return build(s).Offset(d, 0.01*scale)
+				},
+					func(f int) int { return s.H.OffTable[grow][f] }, "offset"+sign+o, sign)
+			}
+			// history of two calls: offsetting by d/2 twice is offsetting by d (dilation and erosion by discs compose), and
+			// the second call sees the orientation the first one returned ("expands CCW, contracts CW contours")
+			// (only in the growing direction: eroding in two steps past the inradius of a small contour leaves an inverted
+			// contour on the unchanged library, see notes/C04.md round 6)
+			if grow == 1 && (s.Only == "" || s.Only == sign+"2") {
+				run("Offset("+sign+"/2) twice", func() *canvas.Path {
+					fastMu.RLock()
+					defer fastMu.RUnlock()
+					return build(s).Offset(d/2, 0.01*scale).Offset(d/2, 0.01*scale)
+				},
+					func(f int) int { return s.H.OffTable[grow][f] }, "offset-twice"+sign+o, sign+"2")
+			}
 		}
 		return
 	}
@@ -380,6 +391,44 @@ func exec(s *Scenario, guard bool) (ms []core.Mismatch, onlys []string) {
 				return build(s).Stroke(2*hw, cappers[cap], joiners[join], 0.01*scale)
 			},
 				func(f int) int { return tab[f] }, name, name)
+		}
+	}
+	// two closed sub-paths of opposite orientation in one path: the polyline and, 60 lattice units to the right, the same
+	// polyline traced the other way round; both strokes must satisfy the classes (Stroke decides per sub-path)
+	if s.Closed && !s.Explicit && !s.F["selfint"] && !s.F["zeroarea"] && !s.F["shortbend"] && (s.Only == "" || strings.HasPrefix(s.Only, "twin")) {
+		const shift = 60
+		twin := func() *canvas.Path {
+			p := build(s)
+			n := len(s.Pts)
+			for i := 0; i < n; i++ {
+				v := s.Pts[(n-i)%n]
+				x, y := s.Emb.Map(float64(v[0]+shift), float64(v[1]))
+				if i == 0 {
+					p.MoveTo(x, y)
+				} else {
+					p.LineTo(x, y)
+				}
+			}
+			p.Close()
+			fastMu.RLock()
+			defer fastMu.RUnlock()
+			return p.Stroke(2*hw, canvas.ButtCap, canvas.BevelJoin, 0.01*scale)
+		}
+		tab := s.H.Table[0][0] // butt / bevel
+		orig := pts
+		if s.Only == "" || s.Only == "twin#1" {
+			run("twin/-/bevel (first sub-path)", twin, func(f int) int { return tab[f] }, "twin/-/bevel", "twin#1")
+		}
+		if s.Only == "" || s.Only == "twin#2" {
+			shifted := make([]oracle.Pt, len(orig))
+			dx, dy := s.Emb.Map(shift, 0)
+			ox, oy := s.Emb.Map(0, 0)
+			for k := range orig {
+				shifted[k] = oracle.Pt{X: orig[k].X + dx - ox, Y: orig[k].Y + dy - oy}
+			}
+			pts = shifted
+			run("twin/-/bevel (second, reversed sub-path)", twin, func(f int) int { return tab[f] }, "twin/-/bevel", "twin#2")
+			pts = orig
 		}
 	}
 	// canvas.FastStroke = true skips the settling; its documentation promises the same region under the NonZero rule
